@@ -75,8 +75,8 @@ add("C05", "model_checking",
     "explicit-state exploration of conversion sequences (states = layouts x contents, transitions = real conversions), all executed on the implementation",
     "DESIGN.md 2/C05", "E1+E3")
 add("C12", "model_checking",
-    "Explicit-state breadth-first search to fixpoint over operation histories (construct, write, copy/move construct, copy/move assign incl. self, convert, dump+load, destroy) on a pool of 2-4 slots and up to four field types; states are histories replayed on fresh objects and merged by a canonical form that keeps everything the property can observe; "
-    "after every operation all live fields are compared with a plain array model, buffer aliasing is checked directly, and an allocation ledger / ASan+LSan judge leaks, double frees and use after free; an unmerged run of all short histories cross-checks the canonicalisation.",
+    "Explicit-state breadth-first search to fixpoint over operation histories (construct, write, copy/move construct, copy/move assign incl. self, convert, dump+load, destroy) on a pool of 2-4 slots and up to four field types; states are histories replayed on fresh objects and merged by a canonical form that keeps everything the property can observe plus the provenance of each buffer (hidden state such as the true allocation size differs between fresh and converted fields); "
+    "after every operation all live fields are compared with a plain array model (through a fresh view and through a view taken when the buffer was built), buffer aliasing is checked directly, and an allocation ledger / ASan+LSan judge leaks, double frees and use after free; an unmerged run of all short histories cross-checks the canonicalisation.",
     "small extents (<= 2 cells) and values 0..2; slots interchangeable; moved-from fields only assigned to or destroyed",
     "explicit-state BFS over operation histories with canonical-state de-duplication, every transition executed on the implementation against a reference model",
     "DESIGN.md 2/C12", "E1+E3+E8")
@@ -84,22 +84,23 @@ add("C12", "model_checking",
 add("C16", "model_checking",
     "Stateless model checking of the real templates under a controlled scheduler: real pthreads, exactly one runnable, scheduling point at every storage access (probe backend hook) plus each thread's tail; all interleavings of the 2-thread programs and all interleavings with at most 2 (quick) / 3 (thorough) preemptions of the 3-thread programs, "
     "for every storage order x {direct, nearest, linear} x N in 1..3, shared and per-thread views, readers and a writer on disjoint cells. Each schedule is compared with the sequential run (results, final storage) and scanned for conflicting accesses; failing schedules are replayed twice. "
-    "Accesses between scheduling points are covered by a separate free-running ThreadSanitizer pass (T up to 16) and an object-file inventory of writable static data in covfie::.",
-    "sequentially consistent hand-off; T<=3 under the scheduler; TSan pass is a detector, not an enumeration",
+    "Two further explorations refine the grain without source hooks: function entries as scheduling points (-finstrument-functions) and, for first-use state, every schedule in a freshly forked child with a scheduling point at every basic block of covfie code (-fsanitize-coverage=trace-pc). Blocking primitives a correct library might use (static-init guards, pthread mutexes) are interposed so that waiting is visible to the scheduler. "
+    "Free-running ThreadSanitizer passes (warm and cold start, T up to 16), an object-file inventory of writable static data in covfie::, and a Spin model of the scheduler protocol itself complete it.",
+    "sequentially consistent hand-off; T<=3 under the scheduler; configurations that exceed their wall-clock budget are reported as capped (never as violations); TSan pass is a detector, not an enumeration",
     "preemption-bounded exhaustive schedule enumeration of the implementation under a hooked cooperative scheduler (CHESS-style), plus TSan free run",
     "DESIGN.md 2/C16", "E2+E5")
 
 add("C13", "model_checking",
     "Exhaustive exploration of the program space 'stack x API operation': the layer grammar is enumerated as a state space (states = well-kinded stacks up to the depth bound; quick = pairwise adjacency cover, thorough = every stack to depth 4 for all 16 (N,M) and depth 5 for five), "
-    "and for each state the whole API script is type-checked by the real compiler with function bodies instantiated; the ill-kinded catalogue must be rejected with the layer's own diagnostic while its twin compiles; cuda_device_array is checked under a header shim of the CUDA runtime.",
+    "and for each state (after a sizeof pre-pass on the tree under test removes stacks the library itself declares too large) the whole API script is type-checked by the real compiler with function bodies instantiated; the ill-kinded catalogue must be rejected with the layer's own diagnostic while its twin compiles; cuda_device_array is checked under a header shim of the CUDA runtime.",
     "g++12 as type checker; default construction and conversions the library never offered are not demanded; type parameters rotated rather than multiplied",
     "exhaustive enumeration of the stack grammar (bounded depth) x API operations, each compiled against the implementation",
     "DESIGN.md 2/C13", "E4")
 
 add("C02", "model_checking",
-    "Conformance checking of the implementation against an executable reference model of the layer semantics: stacks are enumerated from the grammar (pairwise adjacency cover for all 16 (N,M); thorough adds every stack to depth 4 for seven (N,M)), each with a runtime description that a "
+    "Conformance checking of the implementation against an executable reference model of the layer semantics: stacks are enumerated from the grammar (pairwise adjacency cover for all 16 (N,M); thorough: every stack to depth 4 for all 16 (N,M), 30 966 stacks), each with a runtime description that a "
     "reference interpreter evaluates layer by layer; for every coordinate of a dyadic alphabet the interpreter's trace (including the decision whether the coordinate is in the stack's domain) is replayed on the real field_view through both at() overloads and must agree exactly "
-    "(operation-count tolerance through linear). Innermost backends are independent models (probe function, constant, identity, arrays filled from the model function).",
+    "(operation-count tolerance through linear). Innermost backends are independent models (probe function, constant, identity, arrays filled from the model function); the cover prefers coordinate-sensitive innermost backends and the alphabets contain values single precision cannot hold.",
     "dyadic alphabets (exactness); negative lattice indices treated as out of domain; one configuration assignment per stack",
     "explicit enumeration of stacks x coordinate alphabets; reference-model traces replayed against the implementation (model conformance)",
     "DESIGN.md 2/C02", "E3+E4")
@@ -122,7 +123,7 @@ add("C07", "model_checking",
     "exhaustive pair enumeration over the catalogue + golden-file conformance, format automaton as bound model",
     "DESIGN.md 2/C07", "E4+E7")
 add("C08", "fault_enumeration",
-    "Complete enumeration of the fault space of every catalogue dump: every truncation point, every labelled header/footer/tag/width word x a replacement alphabet, every foreign writer the reader's grammar rejects, and a stream failing at the n-th read for every n; "
+    "Complete enumeration of the fault space of every catalogue dump (ordinary and empty-field variant): every truncation point, every labelled header/footer/tag/width word x a replacement alphabet, every foreign writer the reader's grammar rejects, and a stream failing at the n-th read for every n; "
     "each load runs in a forked child with an alarm so abort / signal / hang are observed; three build/oracle combinations incl. valgrind memcheck for decisions on uninitialised data. The demand is exactly 'an exception'.",
     "count word never corrupted; 'incompatible' defined by the reader's format grammar; memcheck on a strided subset of cases",
     "exhaustive fault-point enumeration (crash points = every byte offset; fault alphabet per labelled word) on the implementation with a fault-injecting stream",
